@@ -309,7 +309,7 @@ def check_term(t):
         if not _eq(got_cmp, want_cmp) or (isinstance(want, tuple) and not isinstance(got, tuple)) \
                 or (isinstance(want, frozenset) and not isinstance(got, frozenset)):
             return f"{t.name}: value {v!r} was stored as {got!r}, expected {want!r}"
-        if isinstance(v, (list, set, dict)) and got is v and not t.name.startswith("Any"):
+        if isinstance(v, (list, set, dict)) and got is v and "Any" not in t.name:   # an Any alternative keeps the value as it is
             return f"{t.name}: the caller's mutable container is stored by reference"
     for v in t.bad:
         if conf(t, v):
